@@ -4,6 +4,8 @@
 
 #include <int128_t.hpp>
 #include <cstdint>
+#include <cstdio>
+#include <cstdlib>
 #include <functional>
 #include <map>
 #include <string>
@@ -20,7 +22,12 @@ using Handler = std::function<std::string(const Args&)>;
 std::map<std::string, Handler>& registry();
 
 struct Reg {
-  Reg(const char* name, Handler h) { registry()[name] = h; }
+  Reg(const char* name, Handler h)
+  {
+    // two ops with the same name would make the answer depend on static-initialisation order
+    if (registry().count(name)) { fprintf(stderr, "duplicate harness op: %s\n", name); abort(); }
+    registry()[name] = h;
+  }
 };
 
 inline std::string u128s(uint128_t n)
